@@ -18,7 +18,7 @@ def rich_base():
     return program("equiv_rich", [],
                    [stage("A", "int x, int k", "int y", {"y": echo("x")}),
                     stage("B", "int x", "int y", {"y": echo("x")}),
-                    stage("F", "int x", "txt f, int n", {"f": FILE, "n": const(1)}),
+                    stage("F", "int x", "txt f, int n, map<txt> fm, txt[] fa", {"f": FILE, "n": const(1), "fm": const({}), "fa": const([])}),
                     stage("CHK", "int v", "", {})],
                    [pipeline("SUB", "int x, bool d", "int y",
                              [call("A", binds={"x": self_("x"), "k": lit(7)}),
@@ -217,6 +217,18 @@ def edits(p):
                 q["stages"][k]["outs"][oi]["t"] = mro.T("float")
                 yield "change_output_type:%s.%s" % (st["name"], o["n"]), "semantic", q
                 break
+    # the shape of a collection of files changes (typed map of files <-> of arrays of files,
+    # array of files <-> array of typed maps of files)
+    for k, st in enumerate(p["stages"]):
+        for oi, o in enumerate(st["outs"]):
+            t = o["t"]
+            if t["b"] in p.get("filetypes", ()) and (t["m"] == 1 or t["a"] == 1):
+                q = copy.deepcopy(p)
+                if t["m"] == 1:
+                    q["stages"][k]["outs"][oi]["t"] = dict(t, ia=t["ia"] + 1)
+                else:
+                    q["stages"][k]["outs"][oi]["t"] = dict(t, m=1)
+                yield "change_file_collection_shape:%s.%s" % (st["name"], o["n"]), "semantic", q
     for ai, a in enumerate(p["top"]["args"]):
         if a["e"]["k"] == "lit" and a["e"]["v"]["k"] == "int":
             q = copy.deepcopy(p)
